@@ -748,9 +748,14 @@ fn gen_mesh(r: &mut Rng, big: bool) -> (&'static str, MeshData) {
         let nodes: Vec<usize> = (0..ne * t.node_count())
             .map(|_| {
                 if wild_nodes {
-                    match r.below(4) {
-                        0 => (i64::MAX - 1) as usize, // largest node number the binary writer can increment
-                        1 => (r.next() >> 1).min((i64::MAX - 1) as u64) as usize,
+                    match r.below(16) {
+                        0..=3 => (i64::MAX - 1) as usize, // largest node number the binary writer can increment
+                        4..=7 => (r.next() >> 1).min((i64::MAX - 1) as u64) as usize,
+                        // outside the contract: `node as i64 + 1` / `node + 1` overflow in the writers
+                        // (debug profile), `0 - 1` in the binary reader
+                        8 => i64::MAX as usize,
+                        9 => usize::MAX,
+                        10 => usize::MAX - 1,
                         _ => r.below(1 << 33) as usize,
                     }
                 } else if nn > 0 {
@@ -1041,13 +1046,17 @@ fn case_medit_bin_read(r: &mut Rng) -> (String, String, String, bool, &'static s
 
 fn case_medit_ascii_read(r: &mut Rng) -> (String, String, String, bool, &'static str) {
     // start from a file the implementation wrote, without non-finite coordinates
-    let md = loop {
+    let text = loop {
         let (n, md) = gen_mesh(r, false);
-        if n != "mesh_nonfinite_coords" {
-            break md;
+        if n == "mesh_nonfinite_coords" {
+            continue;
+        }
+        // a node number of usize::MAX makes the writer panic (`node + 1`): take another mesh
+        match std::panic::catch_unwind(move || md.build().display_medit_ascii().to_string()) {
+            Ok(t) => break t,
+            Err(_) => continue,
         }
     };
-    let text = md.build().display_medit_ascii().to_string();
     let fam = r.below(16);
     let mut name: &'static str = "medit_ascrd_valid";
     let mut buf: Vec<u8> = text.clone().into_bytes();
